@@ -268,16 +268,7 @@ func (cd *ConfigManager) Commit(id conf.SessionID) error {
 		return fmt.Errorf("no changes to commit")
 	}
 
-	if err := config.ValidateMSSClampParentMTU(sess.config); err != nil {
-		return fmt.Errorf("pre-commit validation failed: %w", err)
-	}
-	if err := config.ValidateSubscriberGroupVRF(sess.config); err != nil {
-		return fmt.Errorf("pre-commit validation failed: %w", err)
-	}
-	if err := sess.config.ValidateBindings(); err != nil {
-		return fmt.Errorf("pre-commit validation failed: %w", err)
-	}
-	if err := subscriber.ValidateMatchIndex(sess.config.SubscriberGroups); err != nil {
+	if err := validateCandidate(sess.config); err != nil {
 		return fmt.Errorf("pre-commit validation failed: %w", err)
 	}
 
